@@ -19,6 +19,7 @@ SHAPES = ["", "a", " a ", "0", "1", "-1", "1.5", "1e3", "99999999", "99999999999
           "{{{1}}}", "a=b", "<b>", "9^9^9^9", "1e999999999", "2^0.5^-1", "1/0", "5 round -99999999", "xrY", "5000-01-01",
           # text shapes that make a careless pattern backtrack: long white-space / repeated-token runs inside a tag or attribute
           '<span class="' + " " * 40 + 'x">t</span>', '<div class="error' + " \t" * 20 + 'y">t</div>', "<strong " + "a " * 40 + ">t", "&" + "amp" * 40, "[[" + "a|" * 40]
+LONG_RUNS = {"blanks": " ", "tabs": "\t", "underscores": "_", "colons": ":", "slashes": "/", "newlines": "\n"}
 SHAPES3 = ["", "a", "1", "99999999", "a=b"]
 SIGMA_T = ["{{", "}}", "{{{", "}}}", "{", "}", "|", "=", ":", "#if:", "#switch:", "a", " ", "\n", "[[", "]]", "<noinclude>",
            "</noinclude>", "<includeonly>", "</includeonly>", "<onlyinclude>", "</onlyinclude>", "<nowiki>", "</nowiki>"]
@@ -123,6 +124,9 @@ class C03(InputProp):
         # function (and whichever argument position, colon or pipe form) the recursive calls are routed through
         fams.append(Product(names, ["colon", "pipe"], [0, 1, 2], name="fanout"))
         fams.append(Product(sorted(self.OVERFLOWS), [2, 3, 5], name="same-expander"))
+        # one long argument (30000 characters) made of a run of one separator-like character between two letters: work must stay
+        # in proportion to the size of the argument (a quadratic pattern needs seconds here)
+        fams.append(Product(names, sorted(LONG_RUNS), name="longarg"))
         # acyclic universes that multiply: t_i includes t_(i+1) f times, n levels deep (f^n inclusions from n short templates)
         fams.append(Product([2, 3], [4, 8, 12, 16, 20, 30, 45] if tier != "quick" else [4, 12, 20, 45], ["plain", "via-arg", "via-if"], name="multiply"))
         # every function nested in its own k-th argument (an argument that is expanded twice doubles the work per level)
@@ -164,6 +168,8 @@ class C03(InputProp):
             return page, self.db("en", pages), sum(map(len, pages.values()))
         if fam == "syntax":
             return "".join(c), self.db("en"), 20
+        if fam == "longarg":
+            return "{{%s:a%sb}}" % (c[0], LONG_RUNS[c[1]] * 30000), self.db("en"), 0
         if fam == "fanout":
             name, form, pos = c
             args = ["x"] * pos + ["{{A}}"]
@@ -251,6 +257,8 @@ class C03(InputProp):
 
     def fname(self, case):
         fam, c = case
+        if fam == "longarg":
+            return "%s:long-%s" % (c[0], c[1])
         if fam == "magic":
             return c[0]
         if fam == "alias":
